@@ -299,6 +299,22 @@ def paired_writes(prog, owner, buf_field, count_field, either_side=False):
                 # a `&mut self` routine without any other input that never touches the counter: it can only re-arrange what the
                 # buffer already holds (a rehash into a table of another size, a sort, a compaction): the count is invariant
                 ok = None
+            if not ok and ok is not None and not f.exported:
+                # a private helper: the pairing may be completed by its callers (prepare the buffer here, settle the counter there)
+                callers = [(g, b_) for g in prog.fns.values() if not g.promoted and g.owner == owner for b_, st_ in g.calls() if st_.get("callee") == f.id]
+                if callers:
+                    done = True
+                    for g, b_ in callers:
+                        cg = set(bb for (ff, bb, kind, place, rv, span, adt, fld) in sym.field_stores(prog, adt=owner, field=count_field, fns=[g]))
+                        for bb, st_ in g.calls():
+                            tg = st_.get("callee")
+                            if tg and tg in prog.fns and writes_count(tg):
+                                cg.add(bb)
+                        sg_ = Sym(prog, g, ifconv=False)
+                        if any(sg_.reaches_exit_avoiding(sx, cg) for sx in g.succs(b_) if not g.blocks[sx].cleanup):
+                            done = False
+                    if done:
+                        ok = True
             yield f, m, ok
 
 
